@@ -44,7 +44,7 @@ func genArgFor(r *rand.Rand, g *xg, shape string, medium bool) Arg {
 			return bigArg(r, 1000+r.Intn(20000))
 		}
 		for {
-			if f := g.Fragment(); wellFormedContent(f) {
+			if f := g.Fragment(); wellFormedContent(f, g.eom) {
 				return lit(f)
 			}
 		}
@@ -63,7 +63,7 @@ func genArgFor(r *rand.Rand, g *xg, shape string, medium bool) Arg {
 			return a
 		}
 		for {
-			if f := g.Config(); wellFormedContent(f) {
+			if f := g.Config(); wellFormedContent(f, g.eom) {
 				return lit(f)
 			}
 		}
@@ -73,11 +73,11 @@ func genArgFor(r *rand.Rand, g *xg, shape string, medium bool) Arg {
 
 // wellFormedContent is the generator-side check of the argument precondition: the string is
 // well-formed element content in valid UTF-8 and does not contain the 1.0 delimiter.
-func wellFormedContent(s string) bool {
-	if strings.Contains(s, "]]>]]>") || !utf8.ValidString(s) {
+func wellFormedContent(s string, eomOK bool) bool {
+	if (!eomOK && strings.Contains(s, "]]>]]>")) || !utf8.ValidString(s) {
 		return false
 	}
-	_, err := parseDoc([]byte("<r>" + s + "</r>"))
+	_, err := parseDoc([]byte("<r>"+s+"</r>"), strings.Contains(s, "<?xml"))
 	return err == nil
 }
 
@@ -218,7 +218,7 @@ func genCaps(r *rand.Rand, wd int, lean bool) (caps []string, name string) {
 // against one with-defaults form of the server hello.
 func capsSession(r *rand.Rand, wd int, version string, lean bool) Session {
 	s := newSessionCaps(r, "caps", version, r.Intn(2) == 0, r.Intn(2) == 0, wd, lean)
-	g := &xg{r: r, mb: r.Intn(3) != 0}
+	g := &xg{r: r, mb: r.Intn(3) != 0, eom: s.Version == "1.1"}
 	var reqs []Req
 	for _, mode := range defaultsPool {
 		for _, sh := range []string{"get-config", "get-config-subtree", "get-config-xpath"} {
@@ -248,7 +248,7 @@ func newSession(r *rand.Rand, kind, version string, force, header bool) Session 
 // gridSession: every shape at least once in one (version, force, header) cell, shuffled, 19..30 requests.
 func gridSession(r *rand.Rand, version string, force, header bool) Session {
 	s := newSession(r, "grid", version, force, header)
-	g := &xg{r: r, mb: r.Intn(4) != 0}
+	g := &xg{r: r, mb: r.Intn(4) != 0, eom: s.Version == "1.1"}
 	n := len(shapes) + r.Intn(31-len(shapes))
 	order := r.Perm(len(shapes))
 	for i := 0; i < n; i++ {
@@ -263,7 +263,7 @@ func gridSession(r *rand.Rand, version string, force, header bool) Session {
 
 func randomSession(r *rand.Rand) Session {
 	s := newSession(r, "random", []string{"1.0", "1.1"}[r.Intn(2)], r.Intn(2) == 0, r.Intn(2) == 0)
-	g := &xg{r: r, mb: r.Intn(5) != 0}
+	g := &xg{r: r, mb: r.Intn(5) != 0, eom: s.Version == "1.1"}
 	n := 1 + r.Intn(30)
 	// some sessions hammer one shape, most mix
 	one := ""
@@ -302,7 +302,7 @@ func sweepSession(r *rand.Rand, version string, boundary int, k int) (Session, b
 
 func bigSession(r *rand.Rand, k int) Session {
 	s := newSession(r, "big", []string{"1.0", "1.1"}[k%2], (k/2)%2 == 0, (k/4)%2 == 0)
-	g := &xg{r: r, mb: true}
+	g := &xg{r: r, mb: true, eom: s.Version == "1.1"}
 	n := 2 + r.Intn(3)
 	for i := 0; i < n; i++ {
 		sh := []string{"get-subtree", "get-config-subtree", "edit-config", "rpc"}[r.Intn(4)]
@@ -372,7 +372,7 @@ func takesOptions(shape string) bool {
 // call has given up); 1..5 more requests follow each of them on the same stream.
 func noAnswerSession(r *rand.Rand, k int) Session {
 	s := newSession(r, "noanswer", []string{"1.0", "1.1"}[k%2], (k/2)%2 == 0, (k/4)%2 == 0)
-	g := &xg{r: r, mb: r.Intn(4) != 0}
+	g := &xg{r: r, mb: r.Intn(4) != 0, eom: s.Version == "1.1"}
 	before := r.Intn(4)
 	after := 1 + r.Intn(5)
 	mk := func(fail bool) Req {
@@ -416,7 +416,7 @@ func noAnswerSession(r *rand.Rand, k int) Session {
 func stallSession(r *rand.Rand, version string, k int, i int) Session {
 	s := newSession(r, "stall", version, false, true)
 	s.StallMs = 500
-	g := &xg{r: r, mb: r.Intn(3) != 0}
+	g := &xg{r: r, mb: r.Intn(3) != 0, eom: s.Version == "1.1"}
 	mk := func() Req {
 		q := genReq(r, g, shapes[r.Intn(len(shapes))])
 		if q.Arg.N > 0 {
@@ -505,10 +505,10 @@ func applyPool(q *Req, method string, pool []OptSpec, n int, positional string) 
 // mixed with option-less calls.
 func aliasSession(r *rand.Rand, k int) Session {
 	s := newSession(r, "alias", []string{"1.0", "1.1"}[k%2], (k/2)%2 == 0, (k/4)%2 == 0)
-	g := &xg{r: r, mb: r.Intn(3) != 0}
+	g := &xg{r: r, mb: r.Intn(3) != 0, eom: s.Version == "1.1"}
 	frag := func() string {
 		for {
-			if f := g.Fragment(); wellFormedContent(f) {
+			if f := g.Fragment(); wellFormedContent(f, g.eom) {
 				return f
 			}
 		}
